@@ -80,6 +80,7 @@ fn cuts_count(n: usize, k: usize) -> u64 {
 pub fn run(r: &mut Report, ctx: &Ctx) {
     quiet_panics();
     let quick = ctx.quick();
+    #[allow(unused_variables)]
     let seed = ctx.seed;
 
     #[cfg(feature = "explore")]
